@@ -207,17 +207,16 @@ VF_HARNESS(diagonal) {   // diagonal (zero-based dims 0,1): one dim of size min(
   vf_reach("diagonal");
 }
 
-VF_HARNESS(flatted) {   // flatted (dims 0,1 zero-based and mutually contiguous: stride0 == size1*stride1): one dim of size0*size1, stride1
+VF_HARNESS(flatted) {   // flatted (dims 0,1 zero-based and mutually contiguous: stride0 == size1*stride1, or a single leading index): one dim of size0*size1, stride1
   Spec<D> s = arbitrary_spec<D>(1, 0);
-  vf_assume(s.d[0].stride == s.d[1].size * s.d[1].stride);
+  vf_assume(s.d[0].size == 1 || s.d[0].stride == s.d[1].size * s.d[1].stride);   // with a single leading index the leading stride is irrelevant
   auto v = view_of<D>(s, g_mem);
   Spec<D - 1> m{};
   m.d[0] = Dim{0, s.d[0].size * s.d[1].size, s.d[1].stride};
 #pragma unroll
   for(int k = 2; k < D; ++k) m.d[k - 1] = s.d[k];
   m.origin = s.origin;
-  auto const& cv = v;
-  check_view<D - 1>(cv.flatted(), m);
+  check_view<D - 1>(V(v).flatted(), m);
   vf_reach("flatted");
 }
 #endif
